@@ -17,6 +17,18 @@
 //! bad sort parameter => 400 with a reason; HTML pages never contain a router-supplied marker string
 //! verbatim; every trace message the tracing page shows is free of `<` / `>`; RIB answers are
 //! `application/json` and parse as a JSON object; a follow-up `GET /status` answers 200.
+//!
+//! Kind `busy|…` (section "a request while the router's handler is delivering a message"): the real
+//! `bmp-tcp-in` unit (`BmpTcpIn::run` through `verif::reconfunits::bmp::run_probed`) with a gate the engine
+//! holds and a SLOW downstream (a direct-link target whose `direct_update` awaits a semaphore). Two routers
+//! connect; one sends a message whose routing update parks `RouterHandler::process_msg` on
+//! `gate.update_data(..).await`; while it is parked the list page, the busy router's pages (by ingress id /
+//! sysName / address, with `/flags/<peer>` and `/prefixes/<peer>`) and the idle router's pages are requested
+//! concurrently; optionally the busy router's connection is closed while parked; then the downstream lets go.
+//!   busy|park|close|again|first|npeers|req,req,…|<tag, ignored>      (see `lean/Driver/HttpPages.lean`)
+//! Oracle (no Lean): every request is answered (any status) once the downstream has let go, none panics,
+//! and the same pages (and `/status`) still answer afterwards: `busy:request-panicked`, `busy:no-response`,
+//! `busy:dead-after`. A request that waits until the downstream lets go is fine.
 use std::collections::BTreeMap;
 use std::net::SocketAddr;
 use std::panic::{catch_unwind, AssertUnwindSafe};
@@ -30,6 +42,8 @@ use tokio::io::AsyncWriteExt;
 use verif_harness::{bmpio, join, parse_args, replay_cases, rng::Rng, Recorder};
 
 thread_local! { static PANIC_AT: std::cell::RefCell<String> = const { std::cell::RefCell::new(String::new()) }; }
+/// panics by thread name (the busy cases run requests as tasks of their own runtime `busy-<n>`)
+static PANICS: std::sync::Mutex<Vec<(String, String)>> = std::sync::Mutex::new(Vec::new());
 
 fn hex(b: &[u8]) -> String { let mut s = String::from("x"); for x in b { s.push_str(&format!("{x:02x}")); } s }
 fn unhex(s: &str) -> Option<Vec<u8>> {
@@ -643,6 +657,283 @@ fn idx_cases(rec: &mut Recorder, g: &mut Rng, n: usize) {
     }
 }
 
+// ------------------------------------------------------------------ a request while the router's handler is delivering a message
+
+use std::sync::atomic::{AtomicBool, AtomicUsize, Ordering::SeqCst};
+use std::sync::Arc;
+
+/// The slow downstream: while armed, `direct_update` notes that it has been entered and waits for a permit.
+struct SlowTarget { armed: AtomicBool, entered: AtomicUsize, seen: AtomicUsize, sem: tokio::sync::Semaphore }
+impl std::fmt::Debug for SlowTarget { fn fmt(&self, f: &mut std::fmt::Formatter<'_>) -> std::fmt::Result { f.write_str("SlowTarget") } }
+// `#[async_trait]` written out (the harness has no dependency on the macro crate)
+impl rotonda::comms::DirectUpdate for SlowTarget {
+    fn direct_update<'life0, 'async_trait>(&'life0 self, update: rotonda::payload::Update) -> std::pin::Pin<Box<dyn std::future::Future<Output = ()> + Send + 'async_trait>>
+    where 'life0: 'async_trait, Self: 'async_trait {
+        Box::pin(async move {
+            let _update = update;
+            self.seen.fetch_add(1, SeqCst);
+            if self.armed.load(SeqCst) {
+                self.entered.fetch_add(1, SeqCst);
+                if let Ok(p) = self.sem.acquire().await { p.forget(); }
+            }
+        })
+    }
+}
+impl rotonda::comms::AnyDirectUpdate for SlowTarget {}
+
+#[derive(Clone, Debug)]
+struct BusyCase { park: String, close: bool, again: bool, idle_first: bool, npeers: usize, reqs: Vec<String>, tag: String }
+
+fn busy_line(c: &BusyCase) -> String { format!("busy|{}|{}|{}|{}|{}|{}|{}", c.park, c.close as u8, c.again as u8, if c.idle_first { "i" } else { "b" }, c.npeers, c.reqs.join(","), c.tag) }
+
+/// token := 'L' | ('B'|'I') ('i'|'n'|'a') (('f'|'p') digit)?     (B = the busy router, I = the idle one; by ingress id / sysName / address)
+fn token_ok(t: &str, npeers: usize) -> bool {
+    let b = t.as_bytes();
+    if t == "L" { return true; }
+    if !(b.len() == 2 || b.len() == 4) || !matches!(b[0], b'B' | b'I') || !matches!(b[1], b'i' | b'n' | b'a') { return false; }
+    b.len() == 2 || (matches!(b[2], b'f' | b'p') && b[3].is_ascii_digit() && ((b[3] - b'0') as usize) < if b[0] == b'B' { npeers } else { 1 })
+}
+fn parse_busy(line: &str) -> Option<BusyCase> {
+    let f: Vec<&str> = line.split('|').collect();
+    if f.len() != 8 || f[0] != "busy" || !matches!(f[1], "rm" | "pd") || !matches!(f[4], "b" | "i") { return None; }
+    let bit = |s: &str| match s { "0" => Some(false), "1" => Some(true), _ => None };
+    let npeers: usize = f[5].parse().ok().filter(|n| (1..=3).contains(n))?;
+    let reqs: Vec<String> = f[6].split(',').map(|s| s.to_string()).collect();
+    if reqs.is_empty() || reqs.len() > 12 || !reqs.iter().all(|t| token_ok(t, npeers)) { return None; }
+    Some(BusyCase { park: f[1].into(), close: bit(f[2])?, again: bit(f[3])?, idle_first: f[4] == "i", npeers, reqs, tag: f[7].into() })
+}
+fn gen_busy(g: &mut Rng, k: usize) -> BusyCase {
+    let npeers = 1 + g.below(3) as usize;
+    let by = |g: &mut Rng| *g.pick(&["i", "i", "n", "a"]);
+    let mut reqs: Vec<String> = vec!["L".into()];
+    for _ in 0..1 + g.below(3) {
+        let focus = match g.below(4) { 0 => format!("f{}", g.below(npeers as u64)), 1 => format!("p{}", g.below(npeers as u64)), _ => String::new() };
+        reqs.push(format!("B{}{}", by(g), focus));
+    }
+    for _ in 0..1 + g.below(2) { reqs.push(format!("I{}{}", by(g), if g.chance(1, 4) { *g.pick(&["f0", "p0"]) } else { "" })); }
+    if g.chance(1, 4) { reqs.push("L".into()); }
+    for i in (1..reqs.len()).rev() { let j = g.below(i as u64 + 1) as usize; reqs.swap(i, j); }
+    BusyCase { park: if g.chance(1, 3) { "pd" } else { "rm" }.into(), close: g.chance(1, 3), again: g.chance(1, 2), idle_first: g.chance(1, 2), npeers, reqs, tag: format!("b{k}") }
+}
+
+#[derive(Clone, Debug, PartialEq)]
+enum Ans { Status(u16), Panic, NoResponse }
+struct BusyRaw { during: Vec<Ans>, again: Vec<Ans>, after: Vec<Ans>, status_after: Ans, waited: Vec<bool> }
+
+async fn wait_until(limit: Duration, mut f: impl FnMut() -> bool) -> bool {
+    let t = Instant::now();
+    loop {
+        if f() { return true; }
+        if t.elapsed() > limit { return false; }
+        tokio::time::sleep(Duration::from_millis(1)).await;
+    }
+}
+
+/// All of `uris` requested concurrently (one task each); returns the tasks.
+fn spawn_requests(uris: &[String], metrics: &vh::MetricsCollection, resources: &vh::Resources) -> Vec<tokio::task::JoinHandle<u16>> {
+    uris.iter().map(|u| {
+        let (u, m, r) = (u.clone(), metrics.clone(), resources.clone());
+        tokio::spawn(async move {
+            let req = Request::get(u.as_str()).body(Body::empty()).unwrap();
+            let res = vh::handle_request(req, &m, &r).await;
+            let status = res.status().as_u16();
+            let _ = hyper::body::to_bytes(res.into_body()).await;
+            status
+        })
+    }).collect()
+}
+/// Waits (one generous deadline for all) for the answers; what has not answered by then is aborted.
+async fn collect(handles: Vec<tokio::task::JoinHandle<u16>>, deadline: Duration) -> Vec<Ans> {
+    let end = tokio::time::Instant::now() + deadline;
+    let mut out = vec![];
+    for mut h in handles {
+        match tokio::time::timeout_at(end, &mut h).await {
+            Ok(Ok(s)) => out.push(Ans::Status(s)),
+            Ok(Err(e)) => out.push(if e.is_panic() { Ans::Panic } else { Ans::NoResponse }),
+            Err(_) => { h.abort(); out.push(Ans::NoResponse); }
+        }
+    }
+    out
+}
+
+const ANSWER_DEADLINE: Duration = Duration::from_secs(20);
+
+/// Err = the set-up did not get as far as a parked handler (environment; no verdict).
+async fn run_busy(c: &BusyCase) -> Result<BusyRaw, String> {
+    use rotonda::verif::reconfunits as rh;
+    let port = free_port();
+    let unit = rh::bmp::parse_unit(&format!("listen = \"127.0.0.1:{port}\"\nhttp_api_path = \"/routers/\"\nrouter_id_template = \"{{sys_name}}\"\n")).map_err(|_| "bad-unit-config")?;
+    let resources = vh::Resources::default();
+    let metrics = vh::MetricsCollection::default();
+    let comp = rh::component_with_http("bmp-in", "bmp-tcp-in", rotonda::verif::c17::new_register(), resources.clone());
+    let (gate, mut agent) = rotonda::comms::Gate::new(8);
+    let target = Arc::new(SlowTarget { armed: AtomicBool::new(false), entered: AtomicUsize::new(0), seen: AtomicUsize::new(0), sem: tokio::sync::Semaphore::new(0) });
+    let mut down = agent.create_link();
+    down.set_direct_update_target(target.clone());
+    let coord = rotonda::manager::Coordinator::new(1);
+    let wp = coord.clone().track("bmp-in".into());
+    let (ptx, prx) = tokio::sync::oneshot::channel();
+    let task = tokio::spawn(rh::bmp::run_probed(unit, comp, gate, wp, ptx));
+    let _ = down.connect(false).await;
+    coord.wait(|_, _| {}).await;
+    let Ok(Ok(probes)) = tokio::time::timeout(Duration::from_secs(5), prx).await else { task.abort(); return Err("unit-did-not-start".into()) };
+    let processed = |p: &rh::bmp::Probes| bmpio::metric_sum(&p.metrics_text("bmp-in"), "bmp_tcp_in_num_bmp_messages_processed");
+
+    // ---- two routers: 127.0.0.2 (the one that will be busy) and 127.0.0.3 (idle); the request processor of the one
+    // that connected last is asked first
+    let mut conns: Vec<tokio::net::TcpStream> = vec![];
+    for host in if c.idle_first { [3u8, 2] } else { [2u8, 3] } {
+        let n0 = probes.routers().len();
+        let t = Instant::now();
+        let s = loop {
+            let sock = tokio::net::TcpSocket::new_v4().map_err(|_| "no-socket")?;
+            let _ = sock.set_reuseaddr(true);
+            sock.bind(SocketAddr::from(([127, 0, 0, host], 0))).map_err(|_| "no-bind")?;
+            match tokio::time::timeout(Duration::from_secs(2), sock.connect(SocketAddr::from(([127, 0, 0, 1], port)))).await {
+                Ok(Ok(s)) => break s,
+                _ if t.elapsed() > Duration::from_secs(4) => { task.abort(); return Err("no-listener".into()); }
+                _ => tokio::time::sleep(Duration::from_millis(5)).await,
+            }
+        };
+        let _ = s.set_nodelay(true);
+        if !wait_until(Duration::from_secs(5), || probes.routers().len() > n0).await { task.abort(); return Err("router-not-accepted".into()); }
+        conns.push(s);
+    }
+    if c.idle_first { conns.swap(0, 1); }
+    let mut msgs: Vec<(usize, Vec<u8>)> = vec![(0, initiation(b"rtr-busy", b"busy one", &[])), (1, initiation(b"rtr-idle", b"idle one", &[]))];
+    for p in 0..c.npeers { msgs.push((0, bmpio::peer_up(p))); }
+    msgs.push((1, bmpio::peer_up(4)));
+    for p in 0..c.npeers { msgs.push((0, bmpio::route_monitoring(p, 2 + p))); }
+    msgs.push((1, bmpio::route_monitoring(4, 3)));
+    for (i, m) in &msgs {
+        let n0 = processed(&probes);
+        if conns[*i].write_all(m).await.is_err() { task.abort(); return Err("send-failed".into()); }
+        if !wait_until(Duration::from_secs(5), || processed(&probes) > n0).await { task.abort(); return Err("message-not-processed".into()); }
+    }
+    // ---- the pages at rest (also: every message above has been dealt with once these have answered): ingress ids, peer keys
+    let page = |host: u8| {
+        let (m, r) = (metrics.clone(), resources.clone());
+        async move {
+            let mut h = spawn_requests(&[format!("/routers/127.0.0.{host}")], &m, &r);
+            match tokio::time::timeout(Duration::from_secs(10), h.pop().unwrap()).await { Ok(Ok(200)) => {}, _ => return None }
+            let res = vh::handle_request(Request::get(format!("/routers/127.0.0.{host}")).body(Body::empty()).ok()?, &m, &r).await;
+            let b = String::from_utf8_lossy(&hyper::body::to_bytes(res.into_body()).await.ok()?).into_owned();
+            let id = between(&b, "Ingress      : ", "\n")?.trim().parse::<u32>().ok()?;
+            let peers: Vec<String> = b.split("/flags/").skip(1).filter_map(|c| c.split("\">more</a>").next().map(|s| s.to_string())).collect();
+            Some((id, peers))
+        }
+    };
+    let Some((busy_id, busy_peers)) = page(2).await else { task.abort(); return Err("busy-router-page-at-rest".into()) };
+    let Some((idle_id, idle_peers)) = page(3).await else { task.abort(); return Err("idle-router-page-at-rest".into()) };
+    if busy_peers.len() != c.npeers || idle_peers.len() != 1 { task.abort(); return Err("peer-rows-at-rest".into()); }
+    let uri_of = |t: &str| -> String {
+        if t == "L" { return "/routers/".into(); }
+        let b = t.as_bytes();
+        let busy = b[0] == b'B';
+        let mut u = format!("/routers/{}", match b[1] { b'i' => (if busy { busy_id } else { idle_id }).to_string(), b'n' => if busy { "rtr-busy".into() } else { "rtr-idle".to_string() }, _ => format!("127.0.0.{}", if busy { 2 } else { 3 }) });
+        if b.len() == 4 {
+            let key = &(if busy { &busy_peers } else { &idle_peers })[(b[3] - b'0') as usize];
+            u.push_str(if b[2] == b'f' { "/flags/" } else { "/prefixes/" });
+            u.push_str(&pct_path(key.as_bytes()));
+        }
+        u
+    };
+    let uris: Vec<String> = c.reqs.iter().map(|t| uri_of(t)).collect();
+
+    // ---- park the busy router's handler on the gate
+    target.armed.store(true, SeqCst);
+    let parking = if c.park == "pd" { bmpio::peer_down(0) } else { bmpio::route_monitoring(0, 7) };
+    if conns[0].write_all(&parking).await.is_err() { task.abort(); return Err("send-failed".into()); }
+    if !wait_until(Duration::from_secs(8), || target.entered.load(SeqCst) >= 1).await {
+        target.armed.store(false, SeqCst); target.sem.add_permits(1 << 20); task.abort();
+        return Err("handler-not-parked".into());
+    }
+    // ---- the requests, while it is parked
+    let handles = spawn_requests(&uris, &metrics, &resources);
+    // (for the failing direction only: give them time to reach the router's state; a request that has not got
+    // there yet is simply answered later)
+    tokio::time::sleep(Duration::from_millis(30)).await;
+    let waited: Vec<bool> = handles.iter().map(|h| !h.is_finished()).collect();
+    if c.close {
+        let mut s = conns.remove(0);
+        let _ = s.shutdown().await;
+        drop(s);
+        tokio::time::sleep(Duration::from_millis(5)).await;
+    }
+    // ---- the downstream lets go
+    target.armed.store(false, SeqCst);
+    target.sem.add_permits(1 << 20);
+    let again = if c.again { spawn_requests(&uris, &metrics, &resources) } else { vec![] };
+    let during = collect(handles, ANSWER_DEADLINE).await;
+    let again = collect(again, ANSWER_DEADLINE).await;
+    // ---- afterwards, at rest (a closed router has left by then; no verdict hangs on that)
+    if c.close { wait_until(Duration::from_secs(5), || !probes.routers().contains(&busy_id)).await; tokio::time::sleep(Duration::from_millis(10)).await; }
+    let mut after = vec![];
+    for u in &uris { after.extend(collect(spawn_requests(std::slice::from_ref(u), &metrics, &resources), ANSWER_DEADLINE).await); }
+    let status_after = collect(spawn_requests(&["/status".to_string()], &metrics, &resources), ANSWER_DEADLINE).await.pop().unwrap_or(Ans::NoResponse);
+    agent.terminate().await;
+    wait_until(Duration::from_secs(2), || task.is_finished()).await;
+    task.abort();
+    drop(conns);
+    drop(down);
+    Ok(BusyRaw { during, again, after, status_after, waited })
+}
+
+struct BusyOutcome { case: String, imp: String, oracle: String, nontrivial: bool, bumps: Vec<String>, discard: Option<String> }
+
+static BUSY_NO: AtomicUsize = AtomicUsize::new(0);
+
+fn busy_case(c: &BusyCase) -> BusyOutcome {
+    let case = busy_line(c);
+    let mut last_err = String::new();
+    for _attempt in 0..3 {
+        let tname = format!("busy-{}", BUSY_NO.fetch_add(1, SeqCst));
+        let rt = tokio::runtime::Builder::new_multi_thread().worker_threads(3).thread_name(tname.clone()).enable_all().build().unwrap();
+        let raw = rt.block_on(run_busy(c));
+        rt.shutdown_timeout(Duration::from_millis(200));
+        let panics: Vec<String> = { let mut g = PANICS.lock().unwrap(); let (mine, rest): (Vec<_>, Vec<_>) = g.drain(..).partition(|(t, _)| *t == tname); *g = rest; mine.into_iter().map(|(_, m)| m).collect() };
+        let raw = match raw { Ok(r) => r, Err(e) => { last_err = e; continue; } };
+        // canonical observation: the status, or (a page of the router whose connection was closed meanwhile: it may
+        // or may not be there any more) just that there was an answer
+        let show = |t: &str, a: &Ans| -> String { match a { Ans::Status(s) => if c.close && t.starts_with('B') { "ans".into() } else { s.to_string() }, Ans::Panic => "panic".into(), Ans::NoResponse => "none".into() } };
+        let row = |v: &Vec<Ans>| if v.is_empty() { "-".to_string() } else { join(c.reqs.iter().zip(v.iter()).map(|(t, a)| show(t, a)), ",") };
+        let imp = format!("busy during={} again={} after={}", row(&raw.during), row(&raw.again), row(&raw.after));
+        let at = panics.first().map(|p| p.replace(' ', "_")).unwrap_or("-".into());
+        let find = |v: &Vec<Ans>, a: Ans| v.iter().position(|x| *x == a).map(|i| c.reqs[i].clone());
+        let mut fails: Vec<String> = vec![];
+        for (phase, v) in [("while-parked", &raw.during), ("right-after-release", &raw.again)] {
+            if let Some(t) = find(v, Ans::Panic) { fails.push(format!("busy:request-panicked page={t} asked={phase} park={} at={at}", c.park)); }
+            if let Some(t) = find(v, Ans::NoResponse) { fails.push(format!("busy:no-response page={t} asked={phase} park={} within={}s-of-release", c.park, ANSWER_DEADLINE.as_secs())); }
+        }
+        if let Some(t) = find(&raw.after, Ans::Panic) { fails.push(format!("busy:dead-after page={t} panicked park={} close={} at={at}", c.park, c.close as u8)); }
+        if let Some(t) = find(&raw.after, Ans::NoResponse) { fails.push(format!("busy:dead-after page={t} no-answer park={} close={}", c.park, c.close as u8)); }
+        if raw.status_after != Ans::Status(200) { fails.push(format!("busy:dead-after page=/status got={}", show("-", &raw.status_after))); }
+        if fails.is_empty() && !panics.is_empty() { fails.push(format!("busy:request-panicked page=? asked=? park={} at={at}", c.park)); }
+        let mut bumps = vec![format!("busy.park.{}", c.park), format!("busy.close.{}", c.close as u8), format!("busy.again.{}", c.again as u8), format!("busy.connected-first.{}", if c.idle_first { "idle" } else { "busy" })];
+        for (t, w) in c.reqs.iter().zip(raw.waited.iter()) { bumps.push(format!("busy.{}.{}", match &t[..1] { "L" => "list-page", "B" => "busy-router-page", _ => "idle-router-page" }, if *w { "waited-for-the-downstream" } else { "answered-while-parked" })); }
+        return BusyOutcome { case, imp, oracle: if fails.is_empty() { "ok".into() } else { format!("fail {}", fails[0]) }, nontrivial: raw.waited.iter().any(|w| *w) || !fails.is_empty(), bumps, discard: None };
+    }
+    BusyOutcome { case, imp: String::new(), oracle: String::new(), nontrivial: false, bumps: vec![], discard: Some(last_err) }
+}
+
+/// Runs the cases four at a time (each has its own runtime, unit, listener and routers), journaled per chunk.
+fn busy_cases(rec: &mut Recorder, cases: &[BusyCase]) {
+    for chunk in cases.chunks(4) {
+        verif_harness::journal(&chunk.iter().map(busy_line).collect::<Vec<_>>());
+        let outs: Vec<BusyOutcome> = std::thread::scope(|s| {
+            let hs: Vec<_> = chunk.iter().map(|c| s.spawn(move || busy_case(c))).collect();
+            hs.into_iter().map(|h| h.join().unwrap_or_else(|_| BusyOutcome { case: String::new(), imp: String::new(), oracle: String::new(), nontrivial: false, bumps: vec![], discard: Some("engine-thread-panicked".into()) })).collect()
+        });
+        for o in outs {
+            rec.bump("kind.busy");
+            match o.discard {
+                Some(why) => rec.bump(&format!("busy.environment:{}", why.replace(' ', "_"))),
+                None => { for b in &o.bumps { rec.bump(b); } rec.case(o.case, o.imp, o.oracle, o.nontrivial); }
+            }
+        }
+    }
+}
+
 fn parse_tag(tag: &str) -> Option<(usize, u64, bool)> {
     let t = tag.strip_prefix('w')?;
     let (k, rest) = t.split_once('s')?;
@@ -658,9 +949,11 @@ fn main() {
         let msg = info.payload().downcast_ref::<String>().cloned().or_else(|| info.payload().downcast_ref::<&str>().map(|s| s.to_string())).unwrap_or_default();
         let msg: String = msg.chars().map(|c| if c.is_ascii_graphic() { c } else { '_' }).take(100).collect();
         if std::env::var("VERIF_DEBUG").is_ok() { eprintln!("panic: {} {}", loc, msg); }
+        let tname = std::thread::current().name().unwrap_or("").to_string();
+        if tname.starts_with("busy-") { if let Ok(mut g) = PANICS.lock() { g.push((tname, format!("{} {}", loc, msg))); } }
         PANIC_AT.with(|p| *p.borrow_mut() = format!("{} {}", loc, msg));
     }));
-    let mut rec = Recorder::new("hyper::Requests into the real Server::handle_request of a running bmp-tcp-in -> rib -> null-out pipeline with 0..7 routers connected over loopback TCP that sent real Initiation (hostile / long / empty / shared sysName, sysDescr, string TLVs), Peer Up and Route Monitoring messages: router list (all sort keys, orders, malformed and duplicate parameters), router pages by ingress id / router id / sysName / address with flags and prefixes blocks and trailing segments, unknown routers, /status/graph[/traces/<n>] over the real tracer, RIB queries over the filled store, fixed and unknown paths, other methods, byte mutations; plus extract_msg_indices on real Traces; non-trivial = a GET answered 200/400 or a panic (or a non-empty index set); distinct = distinct case lines");
+    let mut rec = Recorder::new("hyper::Requests into the real Server::handle_request of a running bmp-tcp-in -> rib -> null-out pipeline with 0..7 routers connected over loopback TCP that sent real Initiation (hostile / long / empty / shared sysName, sysDescr, string TLVs), Peer Up and Route Monitoring messages: router list (all sort keys, orders, malformed and duplicate parameters), router pages by ingress id / router id / sysName / address with flags and prefixes blocks and trailing segments, unknown routers, /status/graph[/traces/<n>] over the real tracer, RIB queries over the filled store, fixed and unknown paths, other methods, byte mutations; plus extract_msg_indices on real Traces; plus (busy) the list page and the pages of a busy and an idle router requested concurrently while the busy router's handler is parked in process_msg on gate.update_data of a real bmp-tcp-in unit with a slow direct-link downstream (parked by a Route Monitoring or a Peer Down, connection optionally closed while parked, requests repeated right after the release and at rest); non-trivial = a GET answered 200/400 or a panic (or a non-empty index set; or a busy case in which a request waited for the downstream); distinct = distinct case lines");
     let rt = tokio::runtime::Builder::new_multi_thread().worker_threads(2).enable_all().build().unwrap();
     let mut g = Rng::new(args.seed);
     let _enter = rt.enter(); // TcpStreams are dropped on this thread
@@ -668,11 +961,14 @@ fn main() {
     if let Some(path) = &args.replay {
         // group the replayed cases by world tag, rebuild each world from its tag
         let mut by_world: BTreeMap<String, Vec<String>> = BTreeMap::new();
+        let mut busy: Vec<BusyCase> = vec![];
         for line in replay_cases(path) {
             if line.starts_with("idx|") { continue; }
+            if line.starts_with("busy|") { if let Some(c) = parse_busy(&line) { busy.push(c); } continue; }
             let tag = line.rsplit('|').next().unwrap_or("").to_string();
             by_world.entry(tag).or_default().push(line);
         }
+        busy_cases(&mut rec, &busy);
         for (tag, lines) in by_world {
             let Some((k, seed, thorough)) = parse_tag(&tag) else { continue };
             match build_world(&rt, gen_world(seed, k, thorough)) {
@@ -691,6 +987,11 @@ fn main() {
     }
 
     idx_cases(&mut rec, &mut g, if args.thorough { 3000 } else { 300 });
+    {
+        let mut bg = Rng::new(args.seed.wrapping_mul(31).wrapping_add(0xB05));
+        let cases: Vec<BusyCase> = (0..if args.thorough { 600 } else { 96 }).map(|k| gen_busy(&mut bg, k)).collect();
+        busy_cases(&mut rec, &cases);
+    }
     let n_worlds = if args.thorough { 40 } else { 6 };
     let per_world = if args.thorough { 4000 } else { 700 };
     for k in 0..n_worlds {
